@@ -23,7 +23,7 @@ func engaBudgets() []int {
 	if vkThorough() {
 		return []int{300, 500, 700, 900, 1200}
 	}
-	return []int{250, 400, 600, 800}
+	return []int{300, 500, 700, 900}
 }
 
 // engaRunCase draws and runs one adversarial case. Node construction happens inside (the first events — fresh start
@@ -56,11 +56,30 @@ func engaRunCase(t *rapid.T, o engaCaseOpts) *engaCase {
 	if rapid.IntRange(0, 2).Draw(t, "hasPrefix") > 0 {
 		prefix = rapid.IntRange(1, 250).Draw(t, "prefix")
 	}
+	// bias: from the very start the network delays proposal payloads (or cert votes) towards a few nodes and releases
+	// them later — constructs "cert threshold before the block" (stageDigest, late-payload commit) and nodes that learn
+	// the outcome only from bundles
+	if rapid.IntRange(0, 2).Draw(t, "earlyHold") == 0 {
+		n := len(s.nodes)
+		mask := 1 << rapid.IntRange(0, n-1).Draw(t, "earlyHoldNode") // usually one node: the others still form quorums
+		if rapid.IntRange(0, 3).Draw(t, "earlyHoldMany") == 0 {
+			mask = rapid.IntRange(1, (1<<n)-2).Draw(t, "earlyHoldMask")
+		}
+		h := engaHold{cls: engaClsPayload, dstMask: mask,
+			until: rapid.IntRange(80, 450).Draw(t, "earlyHoldFor"), drop: rapid.IntRange(0, 3).Draw(t, "earlyHoldDrop") == 0}
+		if rapid.IntRange(0, 2).Draw(t, "earlyHoldCert") == 0 {
+			h.cls = int(cert)
+		}
+		sc.holds = append(sc.holds, h)
+		s.stats.holds++
+		s.tracef("SCHED early hold class %d mask %b until %d drop=%v", h.cls, h.dstMask, h.until, h.drop)
+	}
 	c.stopped = s.guard(func() {
 		for i := 0; i < prefix; i++ {
 			if !s.benignStep(sc.entropy()) {
 				break
 			}
+			sc.afterStep()
 		}
 		for s.stats.events < budget {
 			if !sc.step() {
